@@ -89,6 +89,11 @@ class SeriesV:
     def pyvc_len(self, I):
         return self.values.n
 
+    def pyvc_invert(self, I):
+        a = lnp.as_arr(I, self.values)
+        fa = a.at
+        return SeriesV(Arr(a.n, lambda k: z3.Not(fa(k)), "bool"), self.index, None)
+
     def pyvc_asarray(self, I):
         return lnp.as_arr(I, self.values)
 
@@ -109,6 +114,36 @@ class _Cat:
             _use("Categorical.codes")
             return lnp.as_arr(I, self.s.values)   # chrom columns are modelled by their integer codes
         raise Unsupported("Series.cat." + attr)
+
+
+class _Loc:
+    """DataFrame.loc[mask, column]: read = the column filtered by the boolean mask; write = in-place
+    masked store into the frame's column"""
+
+    def __init__(self, frame):
+        self.frame = frame
+
+    def _key(self, key):
+        if not (isinstance(key, tuple) and len(key) == 2 and isinstance(key[1], str)):
+            raise Unsupported(".loc with a key other than (boolean mask, column name)")
+        m, col = key
+        m = m.values if isinstance(m, SeriesV) else m
+        if not (isinstance(m, Arr) and m.kind == "bool"):
+            raise Unsupported(".loc row key must be a boolean mask")
+        if col not in self.frame.cols:
+            raise PyRaise(ExcVal("KeyError", (col,)))
+        return m, col
+
+    def pyvc_getitem(self, I, key, node):
+        _use("DataFrame.loc[mask, col]")
+        m, col = self._key(key)
+        return SeriesV(lnp.arr_getitem(I, lnp.as_arr(I, self.frame.cols[col]), m, node), None, col)
+
+    def pyvc_setitem(self, I, key, val):
+        _use("DataFrame.loc[mask, col] = values")
+        m, col = self._key(key)
+        v = val.values if isinstance(val, SeriesV) else val
+        I.arr_store(lnp.as_arr(I, self.frame.cols[col]), m, v, None)
 
 
 class _ILoc:
@@ -170,7 +205,9 @@ class DataFrameV:
         if isinstance(key, Arr) and key.kind == "bool":
             # boolean-mask row selection: the same filter applied to every column
             cols = {c: lnp.arr_getitem(I, lnp.as_arr(I, a), key, node) for c, a in self.cols.items()}
-            return DataFrameV(cols, None, None)
+            out = DataFrameV(cols, None, None)
+            out._filter = lnp.mask_filter(I, key)       # (m, src, rank) of the row selection (ghost)
+            return out
         if isinstance(key, str):
             if key not in self.cols:
                 raise PyRaise(ExcVal("KeyError", (key,)))
@@ -196,6 +233,8 @@ class DataFrameV:
             return SeriesV(self.cols[attr], self.index, attr)
         if attr == "iloc":
             return _ILoc(self)
+        if attr == "loc":
+            return _Loc(self)
         if attr == "columns":
             return list(self.cols.keys())
         if attr == "groupby":
